@@ -26,7 +26,7 @@ def main():
         for pid in pids:
             t0 = time.time()
             env = dict(os.environ, VERIF_REPO=wt, VERIF_EVIDENCE_DIR="/dev/shm/ev_seed_%s" % name, VERIF_OUT_DIR="/dev/shm/out_seed_%s" % name)
-            r = sh("cd /verif && ./check %s --tier %s" % (pid, tier), env=env)
+            r = sh("cd %s && ./check %s --tier %s" % (os.environ.get("VERIF_SNAPSHOT", "/verif"), pid, tier), env=env)
             out = r.stdout.decode()
             viol = [l for l in out.splitlines() if l.startswith("VIOLATION")]
             sigs = [l.strip() for l in out.splitlines() if l.strip().startswith("violated:")][:6]
